@@ -4,6 +4,7 @@ import (
 	"bytes"
 	"fmt"
 	"io"
+	"strings"
 
 	"github.com/ulikunitz/xz"
 	"github.com/ulikunitz/xz/lzma"
@@ -90,6 +91,95 @@ func priorWrite(open func(io.Writer) (io.WriteCloser, error), n int) {
 	if n%2 == 1 {
 		w.Close()
 	}
+}
+
+// onlyReader hides every method of a source but Read.
+type onlyReader struct{ r io.Reader }
+
+func (o onlyReader) Read(p []byte) (int, error) { return o.r.Read(p) }
+
+// viaKinds are the ways a caller hands data to a writer: plain Write calls,
+// or the standard helpers, which switch to optional methods of the writer
+// when it implements them (io.Copy -> ReadFrom, io.WriteString ->
+// WriteString), or WriteByte.
+var viaKinds = []string{"", "", "", "", "copy", "copy", "string", "bytes"}
+
+// viaWrite hands p to w in the given way and reports (bytes taken, error) as
+// Write would.
+func viaWrite(w io.Writer, p []byte, via string) (int, error) {
+	switch via {
+	case "copy":
+		// a source offering only Read: io.Copy uses w.ReadFrom when w
+		// implements io.ReaderFrom, and Write calls of up to 32 KiB otherwise
+		n, err := io.Copy(w, onlyReader{bytes.NewReader(p)})
+		return int(n), err
+	case "string":
+		return io.WriteString(w, string(p))
+	case "bytes":
+		if bw, ok := w.(io.ByteWriter); ok && len(p) <= 200000 {
+			for i, b := range p {
+				if err := bw.WriteByte(b); err != nil {
+					return i, err
+				}
+			}
+			return len(p), nil
+		}
+	}
+	return w.Write(p)
+}
+
+// optionalIfaces names the optional io interfaces v implements.
+func optionalIfaces(v any) string {
+	var s []string
+	if _, ok := v.(io.ReaderFrom); ok {
+		s = append(s, "ReaderFrom")
+	}
+	if _, ok := v.(io.WriterTo); ok {
+		s = append(s, "WriterTo")
+	}
+	if _, ok := v.(io.ByteReader); ok {
+		s = append(s, "ByteReader")
+	}
+	if _, ok := v.(io.ByteWriter); ok {
+		s = append(s, "ByteWriter")
+	}
+	if _, ok := v.(io.StringWriter); ok {
+		s = append(s, "StringWriter")
+	}
+	if len(s) == 0 {
+		return "none"
+	}
+	return strings.Join(s, "+")
+}
+
+// decodeVia decodes data through the standard helper io.Copy (which uses the
+// reader's WriteTo when it implements io.WriterTo) and through ReadByte when
+// the reader implements io.ByteReader; each way must give what Read gives.
+func decodeVia(format string, data []byte, dictCap int) (ways []string, outs [][]byte, errs []error) {
+	r, err := openReader(format, bytes.NewReader(data), dictCap)
+	var buf bytes.Buffer
+	if err == nil {
+		_, err = io.Copy(&buf, r)
+	}
+	ways, outs, errs = append(ways, "io.Copy("+optionalIfaces(r)+")"), append(outs, buf.Bytes()), append(errs, err)
+	if r2, err2 := openReader(format, bytes.NewReader(data), dictCap); err2 == nil {
+		if br, ok := r2.(io.ByteReader); ok {
+			var out []byte
+			var e error
+			for {
+				var b byte
+				if b, e = br.ReadByte(); e != nil {
+					break
+				}
+				out = append(out, b)
+			}
+			if e == io.EOF {
+				e = nil
+			}
+			ways, outs, errs = append(ways, "ReadByte"), append(outs, out), append(errs, e)
+		}
+	}
+	return
 }
 
 // layoutOf parses a valid stream of any of the three formats into a layout
